@@ -258,14 +258,20 @@ where
     T: Service<Publish, Response = Either<(), Publish>, Error = E>,
     C: Service<ProtocolMessage, Response = ProtocolMessageAck, Error = DispatcherError<E>>,
 {
+    let qos2 = pkt.qos() == crate::types::QoS::ExactlyOnce;
     let res = ctx.call(svc, pkt).await.map_err(DispatcherError::Service)?;
     match res {
         Either::Left(()) => {
             log::trace!("Publish result for packet {packet_id:?} is ready");
 
             if let Some(packet_id) = packet_id {
-                inner.inflight.borrow_mut().remove(&packet_id);
-                Ok(Some(Encoded::Packet(Packet::PublishAck { packet_id })))
+                if qos2 {
+                    // packet id stays reserved until PUBREL
+                    Ok(Some(Encoded::Packet(Packet::PublishReceived { packet_id })))
+                } else {
+                    inner.inflight.borrow_mut().remove(&packet_id);
+                    Ok(Some(Encoded::Packet(Packet::PublishAck { packet_id })))
+                }
             } else {
                 Ok(None)
             }
@@ -299,6 +305,10 @@ impl<C> Inner<C> {
             ProtocolMessageKind::PublishAck(id) => {
                 self.inflight.borrow_mut().remove(&id);
                 Some(Encoded::Packet(codec::Packet::PublishAck { packet_id: id }))
+            }
+            ProtocolMessageKind::PublishReceived(id) => {
+                // packet id stays reserved until PUBREL
+                Some(Encoded::Packet(codec::Packet::PublishReceived { packet_id: id }))
             }
             ProtocolMessageKind::PublishRelease(id) => {
                 self.inflight.borrow_mut().remove(&id);
